@@ -31,6 +31,7 @@ from concurrent.futures import ThreadPoolExecutor
 
 V = os.path.dirname(os.path.dirname(os.path.abspath(__file__)))
 SNAPSHOT = "9195fc6"
+OPS_V2 = os.environ.get("MC_OPS", "v2") == "v2"  # v1 = the operator set of the first campaign (no delassign / swapargs)
 ROOT = "/tmp/mc"
 
 SWAP_CMP = {ast.Lt: ast.LtE, ast.LtE: ast.Lt, ast.Gt: ast.GtE, ast.GtE: ast.Gt, ast.Eq: ast.NotEq, ast.NotEq: ast.Eq,
@@ -169,9 +170,9 @@ def sites(fn):
             out.append(("negate", idx, 0))
         elif isinstance(node, ast.Expr) and isinstance(node.value, ast.Call):
             out.append(("delete", idx, 0))
-        elif isinstance(node, (ast.Assign, ast.AugAssign)) and _is_state_target(node):
+        elif OPS_V2 and isinstance(node, (ast.Assign, ast.AugAssign)) and _is_state_target(node):
             out.append(("delassign", idx, 0))
-        if isinstance(node, ast.Call) and len(node.args) >= 2 and not any(isinstance(a, ast.Starred) for a in node.args[:2]) \
+        if OPS_V2 and isinstance(node, ast.Call) and len(node.args) >= 2 and not any(isinstance(a, ast.Starred) for a in node.args[:2]) \
                 and ast.dump(node.args[0]) != ast.dump(node.args[1]):
             out.append(("swapargs", idx, 0))
         if is_copy_call(node) is not None:
